@@ -128,6 +128,11 @@ class Endpoint:
         self._timeout = None
         self.closed = False
 
+    @property
+    def _closed(self):
+        # Transport.stop_thread() looks at sock._closed (as on real sockets)
+        return self.closed
+
     def settimeout(self, t):
         self._timeout = t
 
